@@ -26,6 +26,10 @@ PARTIAL = [
     "theorem covers float values, the check compares the integer case with serde_json::Value's answer",
 ]
 ASSUMPTIONS = [
+    "translator tools/genx_jsonvalue.py: JValue's variants, Map = BTreeMap with preserve_order requested nowhere, the serde_json version "
+    "and dependency list of Cargo.lock, the features requested for serde_json in the workspace manifests, serde_json's recursion limit "
+    "and HEX_DIGITS (read from the registry source of the locked version), the visitor / From shapes and the partial_eq.rs tables; "
+    "C26_source_tie proves by computation that they are what model/JsonText.v mirrors",
     "parse_float : string -> option string (serde_json's f64 reader followed by ryu) is a parameter of parse; the theorems "
     "C26_roundtrip / C26_prefix quantify over it and assume float_fixed parse_float r for each float r of the value "
     "(float_token r = true and parse_float r = Some r); in the correspondence it is tabulated per text by the harness",
